@@ -154,6 +154,14 @@ mut("c13-cli-anchoring-ungrouped", CLI, 'rf"^(?:{r})$"', 'rf"^{r}$"', ["C13"])
 mut("c13-cli-no-end-anchor", CLI, 'rf"^(?:{r})$"', 'rf"^(?:{r})"', ["C13"])
 mut("c13-dkf-ignored-for-nested", G, "            convert_dict = key not in self.dict_keys_fields", "            convert_dict = key not in self.dict_keys_fields or len(data) == 1", ["C13"])
 mut("c13-mapping-values-inherit-dict", G, "                types = [self._detect_type(item) for item in value.values()]", "                types = [self._detect_type(item, False) for item in value.values()]", ["C13"])
+# ---- C14 ----------------------------------------------------------------------------------------------
+UT = "json_to_models/utils.py"
+mut("c14-context-not-restored-on-error", MM, "        def __exit__(self, exc_type, exc_val, exc_tb):\n            self.data.context = self._old", "        def __exit__(self, exc_type, exc_val, exc_tb):\n            if exc_type is None:\n                self.data.context = self._old", ["C14"])
+mut("c14-label-cache-shared-between-instances", UT, "    @wraps(func)\n    def cached_fn(self, *args):\n        if getattr(self, '__cache__', None) is None:\n            setattr(self, '__cache__', {})\n        value = self.__cache__.get(args, ...)\n        if value is Ellipsis:\n            value = func(self, *args)\n            self.__cache__[args] = value\n        return value",
+    "    shared = {}\n\n    @wraps(func)\n    def cached_fn(self, *args):\n        value = shared.get(args, ...)\n        if value is Ellipsis:\n            value = func(self, *args)\n            shared[args] = value\n        return value", ["C14"])
+mut("c14-class-name-conversion-not-idempotent", MB, "        return prepare_label(name, convert_unicode=self.convert_unicode, to_snake_case=False)", "        name = prepare_label(name, convert_unicode=self.convert_unicode, to_snake_case=False)\n        return name + 'X' if len(name) < 6 else name", ["C14"])
+mut("c14-generator-registers-datetime-globally", MP, "        kwargs['post_init_converters'] = False\n        super().__init__(model, **kwargs)", "        kwargs['post_init_converters'] = False\n        from ..dynamic_typing import register_datetime_classes, registry, IsoDateString\n        if IsoDateString not in registry:\n            register_datetime_classes()\n        super().__init__(model, **kwargs)", ["C14"])
+mut("c14-context-never-reset", MM, "        def __exit__(self, exc_type, exc_val, exc_tb):\n            self.data.context = self._old", "        def __exit__(self, exc_type, exc_val, exc_tb):\n            pass", ["C14"])
 # ---- neutral (behaviour preserving) -------------------------------------------------------------------
 mut("neutral-rename-local", G, "        fields_sets = [self._convert(data) for data in data_variants]\n        fields = self.merge_field_sets(fields_sets)",
     "        variants = [self._convert(data) for data in data_variants]\n        fields = self.merge_field_sets(variants)", ["C01", "C02", "C05"], kind="neutral")
